@@ -1,2 +1,13 @@
 import Plonk.Props.C14
-#print axioms Plonk.Props.C14.placeholder_consts
+#print axioms Plonk.Props.C14.assertCanonicalJubjubScalar_extends
+#print axioms Plonk.Props.C14.assertCanonicalJubjubScalar_sound
+#print axioms Plonk.Props.C14.assertCanonicalJubjubScalar_complete
+#print axioms Plonk.Props.C14.fixedBase_extends
+#print axioms Plonk.Props.C14.fixedBase_bad_digits
+#print axioms Plonk.Props.C14.fixedBase_sound
+#print axioms Plonk.Props.C14.ladder_sum_is_scalar_mul
+#print axioms Plonk.Props.C14.fixedBase_complete
+#print axioms Plonk.Props.C14.fixedBase_complete_digits
+#print axioms Plonk.Props.C14.mulGenerator_error_iff
+#print axioms Plonk.Props.C14.mulGenerator_exact
+#print axioms Plonk.Props.C14.no_wrap_depends_on_constants
